@@ -891,16 +891,17 @@ impl<K: CacheKey + 'static> AsyncCache<K> for DiskCache<K> {
         // a put that indexes an entry right after the clear is not wiped from the books
         self.entry_count.store(0, Ordering::Relaxed);
         self.disk_usage.store(0, Ordering::Relaxed);
-        drop(index); // Release lock early to reduce contention
+
+        // Also clean up any remaining files and subdirectories - still under the index
+        // lock: files are published under it, so the sweep cannot take away the file of
+        // a put that completes after this clear has emptied the index
+        let swept = self.clear_directory_recursive(&self.config.cache_dir);
+        drop(index);
 
         vp_sched!("disk.clear.counters");
         self.metrics.reset();
 
-        // Also clean up any remaining files and subdirectories
-        vp_sched!("disk.clear.dir");
-        self.clear_directory_recursive(&self.config.cache_dir)?;
-
-        Ok(())
+        swept
     }
 
     async fn stats(&self) -> CacheResult<crate::stats::CacheStats> {
